@@ -120,6 +120,21 @@ def observe(cmd, args):
         if str(r.marker) != str(m): return "Requirement(...).marker prints %r, Marker prints %r" % (str(r.marker), str(m))
         if not (r.marker == m) or hash(r.marker) != hash(m): return "Requirement(...).marker unequal to the stand-alone Marker"
         return "ok"
+    if cmd == "law.k.literaleval":
+        # the oracle boundary of the model: ast.literal_eval on a quoted token without backslash is the identity on its body,
+        # except that NUL, LF and CR make it fail; checked per code point, both quotes
+        import ast
+        lo, hi = int(args[0]), int(args[1])
+        for c in range(lo, hi):
+            if 0xD800 <= c <= 0xDFFF or c == 92: continue
+            ch = chr(c)
+            for q in "'\"":
+                if ch == q: continue
+                try: v = ast.literal_eval(q + "a" + ch + "b" + q)
+                except (SyntaxError, ValueError): v = None
+                want = None if c in (0, 10, 13) else "a" + ch + "b"
+                if v != want: return "literal_eval on U+%04X with %s: %r" % (c, q, v)
+        return "ok"
     raise KeyError(cmd)
 
 
